@@ -16,12 +16,41 @@ def ident_set(im, order):
     return {(tuple(sorted(by_line[l] for l in ls)), lat) for ls, lat in im.lcd_set()}
 
 
+def long_kernels(ctx):
+    """kernels beyond the 50-line threshold of the multi-process search with a line in the MIDDLE that depends on itself across the
+    iteration: one rotation puts it last (every seed has them; the shipped long kernels are a third per seed in the quick tier)"""
+    from osaca.semantics import MachineModel
+
+    for t in range(2 if ctx.tier == "quick" else 12):
+        isa = "x86" if t % 2 == 0 else "aarch64"
+        arch = ctx.rng.choice(dgcheck.models_for(ctx, isa))
+        core_lines, _ = dgcheck.gen_kernel(ctx.rng, isa, 6, "plain")
+        n_pad = ctx.rng.randrange(50, 56) - len(core_lines) - 1
+        if isa == "x86":
+            pad = ["vaddpd %%xmm%d, %%xmm%d, %%xmm%d" % (12 + i % 3, 12 + (i + 1) % 3, 15) for i in range(n_pad)]
+            selfdep = ctx.rng.choice(["imulq %rsi, %rdx", "vmulpd %xmm9, %xmm10, %xmm10"])
+        else:
+            pad = ["fadd d%d, d%d, d%d" % (28, 29 + i % 2, 30) for i in range(n_pad)]
+            selfdep = ctx.rng.choice(["mul x13, x13, x14", "fmul d27, d27, d26"])
+        cut = ctx.rng.randrange(1, n_pad)
+        lines = core_lines + pad[:cut] + [selfdep] + pad[cut:]
+        try:
+            yield dgcheck.Impl(isa, arch, lines, False, MachineModel(arch=arch)), {"source": "generated-long", "kind": "long"}
+            ctx.count("kernels_beyond_threshold")
+        except Exception as e:  # noqa
+            ctx.violation("analysis of a %d-line kernel raised %s" % (len(lines), type(e).__name__),
+                          {"isa": isa, "arch": arch, "kernel": lines, "flag_deps": False, "exception": type(e).__name__})
+
+
 def run(ctx):
+    import itertools
+
     dgcheck.setup(ctx, "C14", ["RegTables", "Consts"], ["OsacaVerif.Props.C14"])
     n = (60 if ctx.tier == "quick" else 1500) * (3 if ctx.broken else 1)
     distinct = set()
-    for im, src in dgcheck.kernels_stream(ctx, n, 8 if ctx.tier == "quick" else 14, big=True,
-                                          kinds=["plain", "mem", "memdep", "coupled", "coupled", "wbmix", "wbmix"]):
+    for im, src in itertools.chain(dgcheck.kernels_stream(ctx, n, 8 if ctx.tier == "quick" else 14, big=True,
+                                                          kinds=["plain", "mem", "memdep", "coupled", "coupled", "wbmix", "wbmix"]),
+                                   long_kernels(ctx)):
         lines = im.lines
         if len(lines) < 2 or (16 < len(lines) < 50):
             continue
@@ -33,7 +62,10 @@ def run(ctx):
         if len(lines) >= 50:
             # kernels that take the multi-process search: every line once as the last line would be 50+ runs; sample,
             # always including the rotations that put a self-dependent line last
-            offs = ctx.rng.sample(offs, 4 if ctx.tier == "quick" else 12)
+            # (a line that forms a cycle on its own is last after a rotation by its index + 1)
+            must = sorted({ids[0] + 1 for ids, _ in base if len(ids) == 1 and ids[0] + 1 < len(lines)})[:2]
+            offs = must + [o for o in ctx.rng.sample(offs, 4 if ctx.tier == "quick" else 12) if o not in must]
+            offs = offs[: (4 if ctx.tier == "quick" else 12)]
         elif ctx.tier == "quick" and len(offs) > 6:
             offs = ctx.rng.sample(offs, 6)
         for r in offs:
